@@ -26,7 +26,7 @@ func init() {
 		ID:        "C07",
 		Level:     "exploration",
 		Technique: "bounded-exhaustive corruption enumeration of simulated JSON-RPC responses against the real jrpc2.Client, judged by an independent model of what was sent",
-		Rule: "configurations = every distinct glf plan reachable from subsets of size <= 2 of the 28 documented field names x {no address filter, one address (plans that call eth_getLogs)} x ranges x {nocache URL, cached URL}, fresh client per case; " +
+		Rule: "configurations = every distinct glf plan reachable from subsets of size <= 2 of the 28 documented field names x {no address filter, one address (plans that call eth_getLogs)} x ranges (six quick ranges starting at blocks 1..8 plus (0,1) and (0,2), where a zero-valued block decoded from a null answer carries the requested number) x {nocache URL, cached URL}, fresh client per case; " +
 			"for each configuration EVERY applicable single corruption of EVERY exchange of the call: drop/duplicate/swap(all pairs)/append batch elements, null/remove/empty a result, error member {-32000,-32602,429} x {keep,remove result}, " +
 			"renumber a header to n-1,n+1,start-1,start+limit,0, replace parentHash/hash, wrong result types, every log moved out of range / to every other in-range block (with and without blockHash) / duplicated / dropped / other transactionIndex / other logIndex, " +
 			"every receipt renumbered (out of range, every other in-range block with and without blockHash) / swapped transactionIndex / dropped / duplicated, every trace renumbered (likewise) / other transactionPosition, blockHash and transactionHash of every log / receipt / trace removed, empty (0x), 31 bytes, another fork's hash, and short blockHash on the first item of a block combined with a foreign hash on each later item (the log hash operators: quick tier on the uncached URL only), / dropped / duplicated, " +
@@ -64,7 +64,7 @@ type config struct {
 }
 
 var (
-	quickRanges    = [][2]uint64{{1, 1}, {1, 3}, {3, 2}, {5, 3}, {6, 2}, {8, 2}}
+	quickRanges    = [][2]uint64{{1, 1}, {1, 3}, {3, 2}, {5, 3}, {6, 2}, {8, 2}, {0, 1}, {0, 2}}
 	thoroughRanges = [][2]uint64{{1, 4}, {2, 3}, {4, 1}, {7, 2}, {8, 1}, {3, 4}, {1, 8}}
 	pairRanges     = [][2]uint64{{3, 2}, {1, 3}, {5, 3}}
 )
